@@ -1,6 +1,11 @@
 package rules
 
 func init() {
+	property(&Property{ID: "C11",
+		Rules: []string{"O2.state", "O3.attach", "O2.removed", "O1.deactivate"},
+		Explanation: "tbd",
+		Assumptions: []string{"tbd"},
+	})
 	property(&Property{ID: "C04",
 		Rules: []string{"A4.log", "L4a", "L4b", "O2.dedup", "O2.own", "PULL.range", "O1.pipeline", "L3", "L8", "DB.append"},
 		Explanation: "tbd",
